@@ -36,6 +36,7 @@ import (
 	"github.com/evanw/esbuild/internal/linker"
 	"github.com/evanw/esbuild/internal/logger"
 	"github.com/evanw/esbuild/internal/resolver"
+	"github.com/evanw/esbuild/internal/verif"
 	"github.com/evanw/esbuild/internal/xxhash"
 )
 
@@ -999,18 +1000,22 @@ type internalContext struct {
 }
 
 func (ctx *internalContext) rebuild() rebuildState {
+	verif.Gate("ctx.enter", verif.ID(ctx))
 	ctx.mutex.Lock()
 
 	// Ignore disposed contexts
 	if ctx.didDispose {
+		verif.Event("ctx.enter", "ctx", verif.ID(ctx), "branch", "disposed")
 		ctx.mutex.Unlock()
 		return rebuildState{}
 	}
 
 	// If there's already an active build, just return that build's result
 	if build := ctx.activeBuild; build != nil {
+		verif.Event("ctx.enter", "ctx", verif.ID(ctx), "branch", "join", "build", verif.ID(build))
 		ctx.mutex.Unlock()
 		build.waitGroup.Wait()
+		verif.Event("rebuild.return", "ctx", verif.ID(ctx), "build", verif.ID(build))
 		return build.state
 	}
 
@@ -1023,7 +1028,9 @@ func (ctx *internalContext) rebuild() rebuildState {
 	handler := ctx.handler
 	oldHashes := ctx.latestHashes
 	args.options.CancelFlag = &build.cancel
+	verif.Event("ctx.enter", "ctx", verif.ID(ctx), "branch", "start", "build", verif.ID(build), "watch", args.options.WatchMode)
 	ctx.mutex.Unlock()
+	verif.Gate("build.begin", verif.ID(ctx))
 
 	// Do the build without holding the mutex
 	var newHashes map[string]string
@@ -1037,10 +1044,12 @@ func (ctx *internalContext) rebuild() rebuildState {
 
 	// Store the recent build for the dev server
 	recentBuild := &build.state.result
+	verif.Gate("build.publish", verif.ID(ctx))
 	ctx.mutex.Lock()
 	ctx.activeBuild = nil
 	ctx.recentBuild = recentBuild
 	ctx.latestHashes = newHashes
+	verif.Event("build.publish", "ctx", verif.ID(ctx), "build", verif.ID(build), "errors", len(build.state.result.Errors), "outputs", len(newHashes))
 	ctx.mutex.Unlock()
 
 	// Clear the recent build after it goes stale
@@ -1053,7 +1062,10 @@ func (ctx *internalContext) rebuild() rebuildState {
 		ctx.mutex.Unlock()
 	}()
 
+	verif.Gate("build.wgdone", verif.ID(ctx))
+	verif.Event("build.wgdone", "ctx", verif.ID(ctx), "build", verif.ID(build))
 	build.waitGroup.Done()
+	verif.Event("rebuild.return", "ctx", verif.ID(ctx), "build", verif.ID(build))
 	return build.state
 }
 
@@ -1119,6 +1131,7 @@ func (ctx *internalContext) Watch(options WatchOptions) error {
 
 	// All subsequent builds will be watch mode builds
 	ctx.args.options.WatchMode = true
+	verif.Event("watch.enter", "ctx", verif.ID(ctx))
 
 	// Start the file watcher goroutine
 	ctx.watcher.start()
@@ -1144,36 +1157,52 @@ func (ctx *internalContext) Watch(options WatchOptions) error {
 }
 
 func (ctx *internalContext) Cancel() {
+	verif.Gate("cancel.enter", verif.ID(ctx))
 	ctx.mutex.Lock()
 
 	// Ignore disposed contexts
 	if ctx.didDispose {
+		verif.Event("cancel.enter", "ctx", verif.ID(ctx), "branch", "disposed")
 		ctx.mutex.Unlock()
 		return
 	}
 
 	build := ctx.activeBuild
+	if build != nil {
+		verif.Event("cancel.enter", "ctx", verif.ID(ctx), "branch", "active", "build", verif.ID(build))
+	} else {
+		verif.Event("cancel.enter", "ctx", verif.ID(ctx), "branch", "idle")
+	}
 	ctx.mutex.Unlock()
 
 	if build != nil {
 		// Tell observers to cut this build short
 		build.cancel.Cancel()
+		verif.Event("cancel.flag", "ctx", verif.ID(ctx), "build", verif.ID(build))
 
 		// Wait for the build to finish before returning
 		build.waitGroup.Wait()
 	}
+	verif.Event("cancel.return", "ctx", verif.ID(ctx))
 }
 
 func (ctx *internalContext) Dispose() {
 	// Only dispose once
+	verif.Gate("dispose.enter", verif.ID(ctx))
 	ctx.mutex.Lock()
 	if ctx.didDispose {
+		verif.Event("dispose.enter", "ctx", verif.ID(ctx), "branch", "disposed")
 		ctx.mutex.Unlock()
 		return
 	}
 	ctx.didDispose = true
 	ctx.recentBuild = nil
 	build := ctx.activeBuild
+	if build != nil {
+		verif.Event("dispose.enter", "ctx", verif.ID(ctx), "branch", "active", "build", verif.ID(build))
+	} else {
+		verif.Event("dispose.enter", "ctx", verif.ID(ctx), "branch", "idle")
+	}
 	ctx.mutex.Unlock()
 
 	if ctx.watcher != nil {
@@ -1191,6 +1220,7 @@ func (ctx *internalContext) Dispose() {
 	if build != nil {
 		build.waitGroup.Wait()
 	}
+	verif.Event("dispose.return", "ctx", verif.ID(ctx))
 
 	// Run each "OnDispose" callback on its own goroutine
 	for _, fn := range ctx.args.onDisposeCallbacks {
@@ -1516,6 +1546,7 @@ func rebuildImpl(args rebuildArgs, oldHashes map[string]string) (rebuildState, m
 	bundle := bundler.ScanBundle(config.BuildCall, log, realFS, args.caches, args.entryPoints, args.options, timer)
 	watchData = realFS.WatchData()
 	newHashes := make(map[string]string)
+	verif.Event("build.scan.done", "cwd", args.absWorkingDir, "errors", log.HasErrors())
 
 	// Stop now if there were errors
 	var results []graph.OutputFile
@@ -1529,6 +1560,7 @@ func rebuildImpl(args rebuildArgs, oldHashes map[string]string) (rebuildState, m
 		if args.options.CancelFlag.DidCancel() {
 			log.AddError(nil, logger.Range{}, "The build was canceled")
 		}
+		verif.Event("build.compile.done", "cwd", args.absWorkingDir, "errors", log.HasErrors(), "cancelled", args.options.CancelFlag.DidCancel())
 
 		// Stop now if there were errors
 		if !log.HasErrors() {
@@ -1598,6 +1630,7 @@ func rebuildImpl(args rebuildArgs, oldHashes map[string]string) (rebuildState, m
 					if oldHash, ok := oldHashes[result.AbsPath]; ok && oldHash == newHashes[result.AbsPath] {
 						if contents, err := ioutil.ReadFile(result.AbsPath); err == nil && bytes.Equal(contents, result.Contents) {
 							// Skip writing out files that haven't changed since last time
+							verif.Event("out.skip", "cwd", args.absWorkingDir, "path", result.AbsPath)
 							return
 						}
 					}
@@ -1609,6 +1642,7 @@ func rebuildImpl(args rebuildArgs, oldHashes map[string]string) (rebuildState, m
 						if result.IsExecutable {
 							mode = 0777
 						}
+						verif.Event("out.write", "cwd", args.absWorkingDir, "path", result.AbsPath, "errors", log.HasErrors())
 						if err := ioutil.WriteFile(result.AbsPath, result.Contents, mode); err != nil {
 							log.AddError(nil, logger.Range{}, fmt.Sprintf(
 								"Failed to write to output file: %s", err.Error()))
@@ -1621,6 +1655,7 @@ func rebuildImpl(args rebuildArgs, oldHashes map[string]string) (rebuildState, m
 					defer waitGroup.Done()
 					fs.BeforeFileOpen()
 					defer fs.AfterFileClose()
+					verif.Event("out.delete", "cwd", args.absWorkingDir, "path", absPath)
 					os.Remove(absPath)
 				}(absPath)
 			}
@@ -1644,7 +1679,10 @@ func rebuildImpl(args rebuildArgs, oldHashes map[string]string) (rebuildState, m
 	// errors by checking the error array in the build result, and canceled
 	// builds should always have at least one error.
 	timer.Begin("On-end callbacks")
+	verifOnEndIndex := 0
 	for _, onEnd := range args.onEndCallbacks {
+		verif.Event("build.onend", "cwd", args.absWorkingDir, "i", verifOnEndIndex, "errors", len(result.Errors))
+		verifOnEndIndex++
 		fromPlugin, thrown := onEnd.fn(&result)
 
 		// Report errors and warnings generated by the plugin
